@@ -244,6 +244,17 @@ def locate_theorem(relpath, line):
     return last
 
 
+# which properties' theorems are about which extracted table (an unknown table concerns every property)
+_LEX = {"C03", "C08", "C09", "C15", "C18"}
+EXTRACT_OWNERS = {
+    "continuation": {"C09"}, "keywords": _LEX, "tokens": _LEX, "match_single_symbol_token": _LEX,
+    "match_double_symbol_token": _LEX, "match_triple_symbol_token": _LEX,
+    "grammar_terminals": {"C08", "C03"}, "postfix": {"C08", "C03"}, "range": {"C08", "C03"}, "tiers": {"C08", "C03"},
+    "errors": {"C17", "C16"}, "peeled": {"C17"}, "renderer_format": {"C17"}, "typeFns": {"C16"},
+    "binop_arms": {"C16", "C06"}, "eq_arms": {"C16", "C10"},
+}
+
+
 # ---------------------------------------------------------------------------- main
 def main():
     ap = argparse.ArgumentParser()
@@ -267,8 +278,16 @@ def main():
     try:
         ctx.tables = core.extract_tables()
     except core.BuildError as e:
+        # Generated.lean keeps its last good content.  The failure is a broken obligation for the properties whose theorems
+        # are about the table that could not be read; for the others it is recorded, and the correspondence decides.
         ctx.tables = None
-        ctx.proof["broken"].append(("extract", e.log.strip()[-600:]))
+        log = e.log.strip()
+        m = re.search(r"extract:([A-Za-z_]+):", log)
+        table = m.group(1) if m else "?"
+        owners = EXTRACT_OWNERS.get(table)
+        ctx.cov["extraction_failed"] = {"table": table, "message": log[-400:], "concerns": sorted(owners) if owners else "all"}
+        if owners is None or pid in owners:
+            ctx.proof["broken"].append(("extract", log[-600:]))
     if args.replay:
         return replay(ctx, mod, args.replay)
     leg_a(ctx)
